@@ -1,3 +1,5 @@
 import Audit.Tool
 import Adb.Props.C11
+import Adb.Props.TblOptions
 #audit_module Adb.Props.C11
+#audit_module Adb.Props.TblOptions
